@@ -1148,6 +1148,26 @@ class BuiltinModel:
         return d.items.setdefault(self.lit_key(k), v)
 
     def bi_VStr_format(self, s, *a, **k):
+        """str.format for a concrete template of plain {name} fields"""
+        import re as _re
+        st = z3.simplify(s.t)
+        if z3.is_string_value(st) and not a:
+            tmpl = st.as_string()
+            parts, pos, ok = [], 0, True
+            for m in _re.finditer(r"\{([A-Za-z_][A-Za-z0-9_]*)\}", tmpl):
+                if "{" in tmpl[pos:m.start()] or "}" in tmpl[pos:m.start()]:
+                    ok = False
+                parts.append(VStr(z3.StringVal(tmpl[pos:m.start()])))
+                if m.group(1) not in k:
+                    self.I.raise_("KeyError")
+                parts.append(self.format_value(k[m.group(1)], -1, None))
+                pos = m.end()
+            rest = tmpl[pos:]
+            if "{" in rest or "}" in rest:
+                ok = False
+            if ok and all(isinstance(p, VStr) for p in parts):
+                parts.append(VStr(z3.StringVal(rest)))
+                return VStr(z3.Concat(*[p.t for p in parts]))
         return self.fresh_str("fmt")
 
     def bi_VStr_isdigit(self, s):
